@@ -176,10 +176,10 @@ def gen_params(rng, prob=0.6, keys=('sp', 'dp', 'su', 'd', 'ms', 'bs', 'p', 'sj'
     P = dict(DEFAULTS)
     if rng.random() < prob:
         ch = dict(sp=[1000, 800, 1500, 600], dp=[1.0, 0.5, 2.0, 0.25], su=[-250, -100, -400, 0, -50],
-                  d=[300, 800, 1500, 3000], ms=[1000, 500, 2000, 300, 1600], bs=[1200, 600, 2500, 500, 250],
+                  d=[300, 800, 1500, 3000, 0], ms=[1000, 500, 2000, 300, 1600], bs=[1200, 600, 2500, 500, 250, 0],
                   p=[1, 3, 6, 8], sj=[0.0, 0.5, 1.0, 2.0], ss=[0, 1], diff=[5000, 20000, 100000, 500000],
                   r1=[1400, 500, 3000, 700], b1=[0, 1, 3], r2=[100, 50, 400], b2=[0, 4, 2], ma=[16000, 2000, 0],
-                  pt=[27.0, 5.0, 1.0, 60.0])
+                  pt=[27.0, 5.0, 1.0, 60.0, 0.0])
         for k in keys:
             if k in ch:
                 P[k] = rng.choice(ch[k])
@@ -350,3 +350,16 @@ def big_file_case(rng, nq):
     P = dict(DEFAULTS)
     P['p'] = 1
     return {'refs': refs, 'queries': queries, 'qclass': qclass, 'params': P, 'mode': rng.choice(['best', 'separate'])}
+
+
+def add_short_contig_first(rng, case):
+    """A reference contig shorter than most queries, listed FIRST (lowest id): scans that stop at, or are ordered by,
+    an unusable contig show here."""
+    mn = min(m[0] for m in case['refs'])
+    if mn <= 1:
+        for m in case['refs']:
+            m[0] += 1
+        mn = 2
+    pos = gen_ref(rng, rng.randint(6, 12), mean=6000, mn=2000, repeats=False)
+    case['refs'].insert(0, [mn - 1, round(pos[-1] + 100, 1), pos])
+    return case
